@@ -73,7 +73,9 @@ VARIABLES inv, pc, outcome, calls
 vars == <<inv, pc, outcome, calls>>
 SE == INSTANCE SequencesExt
 InvSeq == SE!SetToSeq(Invocations)
-Init == /\ inv \in {InvSeq[k] : k \in {j \in 1..Len(InvSeq) : j % NShards = Shard}}
+\* (the sequence is handed over as an ARGUMENT: TLC evaluates an argument once, a definition indexed inside a set constructor every time)
+ShardOf(seq) == {seq[k] : k \in {j \in 1..Len(seq) : j % NShards = Shard}}
+Init == /\ inv \in ShardOf(InvSeq)
         /\ pc = "syntax" /\ outcome = "none" /\ calls = <<>>
 Syntax == /\ pc = "syntax"
           /\ IF SyntaxOK(inv) THEN pc' = "validate" /\ UNCHANGED outcome ELSE pc' = "done" /\ outcome' = "usage"
